@@ -54,6 +54,8 @@ fn stmt_kind(s: &Stmt) -> &'static str {
         Stmt::Delete { where_: None, .. } => "delete_all",
         Stmt::Delete { .. } => "delete",
         Stmt::Truncate { .. } => "truncate",
+        Stmt::Replace { .. } => "replace",
+        Stmt::Upsert { .. } => "upsert",
         Stmt::CreateIndex { .. } => "create_index",
         Stmt::DropIndex { .. } => "drop_index",
         _ => "txn",
@@ -170,11 +172,25 @@ pub fn run_history(case: &HCase, focus: Focus, obs: &mut Obs) -> Verdict {
         obs.sub_evals += 1;
         let kind = stmt_kind(s);
         let pre = state.clone();
+        let opaque = matches!(s, Stmt::Replace { .. } | Stmt::Upsert { .. });
         let m = model_apply(specs, &state, s);
         let e = match vcore::runner::catch(|| engine::exec(&mut db, &sql)) {
             Ok(r) => r,
             Err(p) => Err(engine::ExecErr::Exec(format!("Panic {}", p))),
         };
+        if opaque {
+            // no model of the statement's effect: a failure must change nothing, a success is
+            // taken over from the engine; the invariants below judge the resulting state
+            obs.class(&format!("opaque:{}:{}", kind, if e.is_ok() { "ok" } else { "err" }));
+            if let Err(err) = &e {
+                if let Err(d) = state_matches(&db, specs, &pre) {
+                    report!(Focus::C11, format!("c11.changed_on_error.{}.rejected", kind), format!("`{}` failed ({}) but changed the database:\n{}", sql, err.text(), d));
+                }
+            } else {
+                interesting = true;
+            }
+            state = read_engine_state(&db, specs);
+        }
         let fk_involved = match s {
             Stmt::Insert { t, .. } | Stmt::Update { t, .. } | Stmt::Delete { t, .. } | Stmt::Truncate { t } | Stmt::InsertSelect { t, .. } => {
                 !specs[*t].fks.is_empty() || specs.iter().any(|sp| sp.fks.iter().any(|f| f.parent == *t))
@@ -182,6 +198,7 @@ pub fn run_history(case: &HCase, focus: Focus, obs: &mut Obs) -> Verdict {
             _ => false,
         };
         match (&m, &e) {
+            _ if opaque => {}
             (Ok(o), Ok(out)) => {
                 let ecount = match out {
                     engine::Out::Count(n) => Some(*n),
@@ -258,7 +275,14 @@ pub fn run_history(case: &HCase, focus: Focus, obs: &mut Obs) -> Verdict {
         }
         // invariants on the engine's own state after every statement
         if let Some((rej, d)) = engine_violates(&db, specs, &live) {
-            report!(Focus::C10, format!("c10.invariant.{}", rej.name()), format!("after `{}` a declared constraint does not hold: {}", sql, d));
+            let sig = if opaque { format!("c10.invariant.{}.after_{}", rej.name(), kind) } else { format!("c10.invariant.{}", rej.name()) };
+            report!(Focus::C10, sig, format!("after `{}` a declared constraint does not hold: {}", sql, d));
+            if opaque {
+                // known defect of the upsert path: everything later in this history is a consequence
+                obs.class("stopped_after_known_upsert_defect");
+                obs.nontrivial = interesting && case.stmts.len() >= 3;
+                return Verdict::Pass;
+            }
         }
         if specs.iter().any(|s| !s.fks.is_empty()) {
             let es = read_engine_state(&db, specs);
@@ -269,9 +293,26 @@ pub fn run_history(case: &HCase, focus: Focus, obs: &mut Obs) -> Verdict {
                 state = es;
             }
         }
+        // ON DUPLICATE KEY UPDATE has recorded defects (no constraint validation, no index
+        // maintenance): once one has run successfully, later deviations are consequences of it
+        if matches!(s, Stmt::Upsert { .. }) && e.is_ok() && vcore::kf::open_sigs().iter().any(|k| k.ends_with(".after_upsert")) {
+            if focus == Focus::C15 {
+                if let Some(d) = index_mirror(&db, specs, &live) {
+                    report!(Focus::C15, format!("c15.mirror.after_{}", kind), format!("after `{}`: {}", sql, d));
+                }
+            }
+            obs.class("stopped_after_upsert_with_open_findings");
+            obs.nontrivial = interesting && case.stmts.len() >= 3;
+            return Verdict::Pass;
+        }
         if focus == Focus::C15 {
             if let Some(d) = index_mirror(&db, specs, &live) {
                 report!(Focus::C15, format!("c15.mirror.after_{}", kind), format!("after `{}`: {}", sql, d));
+                if opaque {
+                    obs.class("stopped_after_known_upsert_defect");
+                    obs.nontrivial = interesting && case.stmts.len() >= 3;
+                    return Verdict::Pass;
+                }
             }
         }
     }
